@@ -1,4 +1,5 @@
 import HdVerif.Proofs.TilingFull
+import HdVerif.Proofs.TilingFraction
 /-! # C04  Tiled images reassemble to the exact total pixel matrix
 
 Property theorems only (helper lemmas: `Proofs/TilingStd.lean`, `Proofs/Tiling.lean`, `Proofs/TilingGrid.lean`,
@@ -6,7 +7,8 @@ Property theorems only (helper lemmas: `Proofs/TilingStd.lean`, `Proofs/Tiling.l
 `Model/Tiling.lean`, whose integer arithmetic is *regenerated from /repo's current source* on every run:
 `Gen.stdRowColIndices` (T3, `_standardize_row_column_indices`), `Gen.tiledRegion` (T5, offsets, expected frame
 count and the eight slice bounds of `_iterate_indices_for_tiled_region`), `Gen.tileArrayBounds` (T6,
-`get_tile_array`), `Gen.tilesPerAxisFloor` (T7b, `compute_tile_positions_per_frame`).
+`get_tile_array`), `Gen.tilesPerAxisFloor` (T7b, `compute_tile_positions_per_frame`), `Gen.fractionOccupied` /
+`Gen.fractionStored` (T4o, emptiness test vs stored value of a float mask pixel).
 
 Conventions.  A matrix is a function of 0-based `(row, column)`.  `normStart x n ai` / `normEnd x n ai`
 (`Proofs/TilingStd.lean`) say what a start / end argument denotes on an axis of length `n` as a 1-based
@@ -314,6 +316,15 @@ theorem tile_then_read_full {α} [BEq α] [LawfulBEq α] (z : α) (Ms : List (In
   refine ⟨e, ?_⟩
   rw [e]
   exact tileThenRead_sparse z Ms R C tr tc hr hc hR hC hnd c M hM false rs re cs ce ai r0 r1 c0 c1 hstd hr01 hc01
+
+/-- **A tile is omitted only if everything stored for it is zero** (float masks).  The constructor judges emptiness for
+`omit_empty_frames` in one place (`np.around(mask · MaximumFractionalValue) != 0`, translated as `Gen.fractionOccupied`) and
+computes the stored value in another (`_get_segment_pixel_array`, `Gen.fractionStored`); for every fraction `v` and every
+MaximumFractionalValue the two agree: a pixel counts as empty iff the value stored for it is 0.  (The model's emptiness test
+`keepMask` works on the stored values; this theorem is what licenses that for float input.) -/
+theorem omitted_tile_stores_zero (v : Rat) (m : Int) :
+    ∃ b s, fractionOccupied v m = .ok b ∧ fractionStored v m = .ok s ∧ (b = false ↔ s = 0) :=
+  occupied_iff_stored_ne_zero v m
 
 /-- TILED_FULL with `omit_empty_frames` is refused by the constructor when the mask is not entirely empty … -/
 theorem tiled_full_omit_refused {α} [BEq α] (z : α) (Ms : List (Int × Img α)) (R C tr tc c : Int)
